@@ -99,6 +99,7 @@ EOpRules(st, e) ==
         <<"C17.l",  IF e.err = "" THEN e.l = Len(e.lits)
                     ELSE IF e.k < Len(e.seqs) THEN e.l = lk ELSE e.l >= lk>>,
         <<"C17.n",  e.n = Len(NewRef(st, e)) - Len(st.ref)>>,
+        <<"C05.nothing_of_failing", (e.err # "" /\ e.k < Len(e.seqs)) => e.l = lk>>,
         <<"C05.block_untouched", e.untouched>>,
         (* C07: without a writer fault the call may stop only at a malformed *)
         (* sequence (the one after the k consumed ones).                     *)
